@@ -255,7 +255,153 @@ func (b *bb) runBatch(kind, ver string, size uint, nocopy bool, timeout time.Dur
 	}
 }
 
+// A constructor call that is rejected (here: TimeoutInaccuracy 150 %) must leave nothing behind:
+// the caller corrects the options and creates the discipline on the SAME input channel, and
+// everything written to it comes out of that discipline (C03, C11); no goroutine of the rejected
+// call exists (C19).
+func (b *bb) rejectedCtor() {
+	before := b.fails()
+	kind := []string{"join v2", "unite v2", "join v1"}[b.cycle("rejected-ctor", 3)]
+	const n = 40
+	var sent []int
+	var got []int
+	var outs [][]int
+	ok := true
+	switch kind {
+	case "unite v2":
+		in := make(chan []int, 2)
+		if _, err := unite.New(unite.Opts[int]{Input: in, JoinSize: 4, Timeout: 50 * time.Millisecond, TimeoutInaccuracy: 150}); err == nil {
+			close(in)
+			b.note("join", "rejected-ctor "+kind+": accepted", before)
+			return
+		}
+		d, err := unite.New(unite.Opts[int]{Input: in, JoinSize: 4})
+		if err != nil {
+			b.fail("C03 unite.New: %v", err)
+			return
+		}
+		var slices [][]int
+		go func() {
+			for i := 0; i < n; i++ {
+				sl := make([]int, 1+i%5)
+				for k := range sl {
+					sl[k] = 1000*(i+1) + k
+				}
+				in <- sl
+			}
+			close(in)
+		}()
+		for i := 0; i < n; i++ {
+			sl := make([]int, 1+i%5)
+			for k := range sl {
+				sl[k] = 1000*(i+1) + k
+			}
+			slices = append(slices, sl)
+			sent = append(sent, sl...)
+		}
+		tmo := time.After(10 * time.Second)
+	loopU:
+		for {
+			select {
+			case o, open := <-d.Output():
+				if !open {
+					break loopU
+				}
+				outs = append(outs, append([]int(nil), o...))
+				got = append(got, o...)
+			case <-tmo:
+				ok = false
+				break loopU
+			}
+		}
+		if ok {
+			for i, sl := range slices {
+				found := 0
+				for _, o := range outs {
+					for k := 0; k+len(sl) <= len(o); k++ {
+						if reflect.DeepEqual(o[k:k+len(sl)], sl) {
+							found++
+						}
+					}
+				}
+				if found != 1 {
+					b.fail("C11 unite v2, discipline created on the input of a rejected New() call (TimeoutInaccuracy 150): input slice %d %v appears in %d output slices instead of exactly one", i, sl, found)
+					break
+				}
+			}
+		}
+	default:
+		in := make(chan int, 2)
+		for i := 1; i <= n; i++ {
+			sent = append(sent, i)
+		}
+		var output <-chan []int
+		if kind == "join v2" {
+			if _, err := j2.New(j2.Opts[int]{Input: in, JoinSize: 4, Timeout: 50 * time.Millisecond, TimeoutInaccuracy: 150}); err == nil {
+				close(in)
+				b.note("join", "rejected-ctor "+kind+": accepted", before)
+				return
+			}
+			d, err := j2.New(j2.Opts[int]{Input: in, JoinSize: 4})
+			if err != nil {
+				b.fail("C03 join.New: %v", err)
+				return
+			}
+			output = d.Output()
+		} else {
+			if _, err := j1.New(j1.Opts[int]{Ctx: context.Background(), Input: in, JoinSize: 4, Timeout: 50 * time.Millisecond, TimeoutInaccuracy: 150}); err == nil {
+				close(in)
+				b.note("join", "rejected-ctor "+kind+": accepted", before)
+				return
+			}
+			d, err := j1.New(j1.Opts[int]{Ctx: context.Background(), Input: in, JoinSize: 4})
+			if err != nil {
+				b.fail("C03 v1 join.New: %v", err)
+				return
+			}
+			output = d.Output()
+		}
+		go func() {
+			for _, x := range sent {
+				in <- x
+			}
+			close(in)
+		}()
+		tmo := time.After(10 * time.Second)
+	loopJ:
+		for {
+			select {
+			case o, open := <-output:
+				if !open {
+					break loopJ
+				}
+				got = append(got, o...)
+			case <-tmo:
+				ok = false
+				break loopJ
+			}
+		}
+	}
+	if !ok {
+		b.fail("C03 %s, discipline created on the input of a rejected New() call: the output was not closed within 10s after the input was closed (%d of %d elements received)", kind, len(got), len(sent))
+	} else if !reflect.DeepEqual(got, sent) {
+		b.fail("C03 %s, discipline created on the input of a rejected New() call (TimeoutInaccuracy 150): the output slices concatenate to %d elements %v..., %d were written: something else reads the input", kind, len(got), head(got, 8), len(sent))
+	}
+	b.leakProbe("rejected constructor call of " + kind)
+	b.note("join", "rejected-ctor "+kind, before)
+}
+
+func head(l []int, n int) []int {
+	if len(l) > n {
+		return l[:n]
+	}
+	return l
+}
+
 func (b *bb) scenarioJoin() {
+	if b.cycle("join-rejected", 2) == 0 {
+		b.rejectedCtor()
+	}
 	r := b.r
 	kind := []string{"join", "unite", "join"}[r.Intn(3)]
 	ver := "v2"
@@ -666,6 +812,22 @@ func (b *bb) scenarioJoin() {
 			case <-time.After(5 * time.Second):
 				b.fail("C16 v1 join: Stop() did not return within 5s (consumer holds a slice: %v)", held != nil)
 			}
+			if held != nil && nocopy {
+				// the consumer keeps the slice while the program goes on: another discipline of the
+				// same element type is created and used (the stopped one must not have handed the
+				// memory the consumer owns to anybody else)
+				in2 := make(chan int, 4)
+				if d2, err2 := j1.New(j1.Opts[int]{Ctx: context.Background(), Input: in2, JoinSize: 2, Timeout: 0}); err2 == nil {
+					for _, x := range []int{-11, -12, -13} {
+						in2 <- x
+					}
+					select {
+					case <-d2.Output():
+					case <-time.After(time.Second):
+					}
+					d2.Stop()
+				}
+			}
 			time.Sleep(2 * time.Millisecond)
 			close(readerStop)
 			<-readerDone
@@ -1018,7 +1180,87 @@ loop:
 // consumer of the same queue).  Whatever the discipline accepted must still leave within the
 // timeout bound when the input falls silent (C10) - the ticker has to keep being looked at -
 // and nothing may be lost between the two readers (C03).
+// Two v1 join disciplines without a timeout fan one buffered input out to two batching
+// workers; the producer closes the input when it is done.  Together the two outputs carry
+// exactly what was written - every element once, nothing invented (C03) - whichever of the two
+// took an element.
+func (b *bb) joinSharedV1() {
+	before := b.fails()
+	rounds := 60
+	if b.thorough {
+		rounds = 300
+	}
+	for round := 0; round < rounds && b.fails() == before; round++ {
+		in := make(chan int, 8)
+		var ds [2]*j1.Discipline[int]
+		for i := range ds {
+			d, err := j1.New(j1.Opts[int]{Ctx: context.Background(), Input: in, JoinSize: uint(2 + b.r.Intn(4))})
+			if err != nil {
+				b.fail("C03 v1 join.New: %v", err)
+				return
+			}
+			ds[i] = d
+		}
+		n := 20 + b.r.Intn(40)
+		go func() {
+			for x := 1; x <= n; x++ {
+				in <- x
+			}
+			close(in)
+		}()
+		var mu sync.Mutex
+		seen := map[int]int{}
+		var wg sync.WaitGroup
+		for i := range ds {
+			wg.Add(1)
+			go func(d *j1.Discipline[int]) {
+				defer wg.Done()
+				tmo := time.After(10 * time.Second)
+				for {
+					select {
+					case sl, open := <-d.Output():
+						if !open {
+							return
+						}
+						mu.Lock()
+						for _, x := range sl {
+							seen[x]++
+						}
+						mu.Unlock()
+					case <-tmo:
+						mu.Lock()
+						seen[-1]++
+						mu.Unlock()
+						return
+					}
+				}
+			}(ds[i])
+		}
+		wg.Wait()
+		if seen[-1] > 0 {
+			b.fail("C03 two v1 join disciplines on one input: an output was not closed within 10s after the input was closed")
+			break
+		}
+		for x, c := range seen {
+			if x < 1 || x > n {
+				b.fail("C03 two v1 join disciplines on one input (no timeout, input of capacity 8, elements 1..%d written, then closed): element %d was delivered %d time(s) but never written", n, x, c)
+				break
+			}
+			if c != 1 {
+				b.fail("C03 two v1 join disciplines on one input: element %d was delivered %d times", x, c)
+				break
+			}
+		}
+		if b.fails() == before && len(seen) != n {
+			b.fail("C03 two v1 join disciplines on one input: %d of %d written elements were delivered when both outputs were closed", len(seen), n)
+		}
+	}
+	b.leakProbe("two v1 join disciplines on one input")
+	b.note("joinshared", "v1 fan-out", before)
+}
+
 func (b *bb) scenarioJoinShared() {
+	b.joinSharedV1()
 	before := b.fails()
 	tmo, inc := 40*time.Millisecond, uint(25)
 	in := make(chan int, 16)
